@@ -1,6 +1,14 @@
 import Blue.Model.BitVec
 import Blue.Model.Csa
 import Blue.Model.CsaDoc
+import Blue.Model.BitArr
+import Blue.Model.Sampled
+import Blue.Model.Sigma
+import Blue.Model.BvSparse
+import Blue.Model.RrrCf
+import Blue.Model.Rrr
+import Blue.Model.Wavelet
+import Blue.Model.PsiDoc
 import Blue.Driver.Util
 /-! Driver verbs for property C19: instance `bv` (bit vectors on `List Bool`) and instance `doc`
     (the `Document` surface over the `Csa` model; the suffix-array order is computed naively here,
@@ -35,17 +43,74 @@ def unRle : List Nat → Bool → List Bool
 
 /-! ### bit vectors -/
 
+/-- the six observations of one bit-vector implementation, given its operations -/
+def bvRender (len : Nat) (acc : Nat → Option Bool) (rk rk0 sel sel0 : Nat → Option Nat)
+    (pa ps ps0 : List Nat) : String :=
+  "len=" ++ toString len
+    ++ ";a=" ++ showOpts (pa.map fun x => showOptBool (acc x))
+    ++ ";r=" ++ showOpts (pa.map fun x => showOptNat (rk x))
+    ++ ";r0=" ++ showOpts (pa.map fun x => showOptNat (rk0 x))
+    ++ ";s=" ++ showOpts (ps.map fun x => showOptNat (sel x))
+    ++ ";s0=" ++ showOpts (ps0.map fun x => showOptNat (sel0 x))
+
+/-- the reference semantics on `List Bool` (`ReferenceBitVector` and the trait defaults) -/
 def bvAnswer (bits : List Bool) (pa ps ps0 : List Nat) : String :=
   open Blue.BitVec in
-  "len=" ++ toString bits.length
-    ++ ";a=" ++ showOpts (pa.map fun x => showOptBool (access bits x))
-    ++ ";r=" ++ showOpts (pa.map fun x => showOptNat (rank bits x))
-    ++ ";r0=" ++ showOpts (pa.map fun x => showOptNat (rank0 bits x))
-    ++ ";s=" ++ showOpts (ps.map fun x => showOptNat (select bits x))
-    ++ ";s0=" ++ showOpts (ps0.map fun x => showOptNat (select0 bits x))
+  bvRender bits.length (access bits) (rank bits) (rank0 bits) (select bits) (select0 bits) pa ps ps0
+
+/-- the sparse bit vector: the model of `sparse::BitVector::from_indices(branch, len, set positions)`
+    and of its own `access` / `rank` / `select` on the built tree -/
+def bvSparse (branch : Option Nat) (bits : List Bool) (pa ps ps0 : List Nat) : String :=
+  open Blue.BvSparse in
+  match (match branch with | none => construct bits | some b => build b bits.length (indicesOf bits)) with
+  | none => "construct:none"
+  | some t => bvRender (len t) (access t) (rank t) (rank0 t) (select t) (select0 t) pa ps ps0
+
+/-- cf_rrr: the model of `cf_rrr::BitVector::construct` and of its own queries on the encoded blocks
+    (`rank0` is the trait default over its `rank`) -/
+def bvCf (bits : List Bool) (pa ps ps0 : List Nat) : String :=
+  open Blue.RrrCf in
+  let v := construct bits
+  bvRender (len v) (access v) (rank v) (fun x => (rank v x).map (fun r => x - r)) (select v) (select0 v) pa ps ps0
+
+/-- rrr: the model of `rrr::BitVector::construct` and of its own queries on the six encoded arrays -/
+def bvRrr (bits : List Bool) (pa ps ps0 : List Nat) : String :=
+  open Blue.Rrr in
+  let v := construct bits
+  bvRender (len v) (access v) (rank v) (rank0 v) (select v) (vselect0 v) pa ps ps0
+
+/-- which model answers for which implementation of the harness -/
+def bvImpl (name : String) (bits : List Bool) (pa ps ps0 : List Nat) : Option String :=
+  match name with
+  | "ref" => some (bvAnswer bits pa ps ps0)
+  | "rrr" => some (bvRrr bits pa ps ps0)
+  | "cfrrr" => some (bvCf bits pa ps ps0)
+  | "sparse" => some (bvSparse none bits pa ps ps0)
+  | "sparse4" => some (bvSparse (some 4) bits pa ps ps0)
+  | "sparse128" => some (bvSparse (some 128) bits pa ps ps0)
+  | "sparse255" => some (bvSparse (some 255) bits pa ps ps0)
+  | _ => none
+
+def parsePairs (s : String) : Option (List (Nat × Nat)) :=
+  if s = "-" then some [] else
+  allSome ((s.splitOn ",").map fun p => match p.splitOn ":" with
+    | [a, b] => match optNat a, optNat b with
+      | some x, some y => some (x, y)
+      | _, _ => none
+    | _ => none)
+
+/-- `bv ba <width:value,…> <index:width,…>`: `push_word` each field, `seal`, then the loads -/
+def bvBa (pushes loads : List (Nat × Nat)) : String :=
+  open Blue.BitArr in
+  let a := sealBits (packFields (pushes.map fun p => (p.2, p.1)))
+  "bytes=" ++ toString (a.length / 8) ++ ";ld=" ++ showOpts (loads.map fun q => showOptNat (load a q.1 q.2))
 
 /-- `bv <len> <rle> <impl,impl,…> all` or `bv <len> <rle> <impls> at <p,p,…>` -/
 def handleBv : List String → String
+  | ["ba", pushes, loads] =>
+    match parsePairs pushes, parsePairs loads with
+    | some p, some q => bvBa p q
+    | _, _ => "bad-op"
   | len :: rle :: impls :: mode =>
     match optNat len, natList rle with
     | some n, some runs =>
@@ -60,8 +125,9 @@ def handleBv : List String → String
       match q with
       | none => "bad-op"
       | some (pa, ps, ps0) =>
-        let a := bvAnswer bits pa ps ps0
-        " ".intercalate ((impls.splitOn ",").map fun i => i ++ ":" ++ a)
+        match allSome ((impls.splitOn ",").map fun i => (bvImpl i bits pa ps ps0).map (i ++ ":" ++ ·)) with
+        | none => "bad-op"
+        | some segs => " ".intercalate segs
     | _, _ => "bad-op"
   | _ => "bad-op"
 
@@ -81,28 +147,138 @@ def parsePats (s : String) : Option (List (List Nat)) :=
 
 def unshift (xs : List Nat) : List Nat := xs.map (· - 1)
 
+def showOptNatE : Option Nat → String
+  | none => "err"
+  | some n => toString n
+
+def showOutNat : Blue.PsiWt.Outcome Nat → String
+  | .ok n => toString n
+  | .err => "err"
+  | .panic => "!"
+
+/-- the whole `Document` surface on code points, every component as `CompressedDocument` has it: the
+    alphabet through the `Sigma` model (`construct`, `translate`, `sa_range_for`, `sa_index_to_t`), ψ
+    through the wavelet-tree ψ model (`constrain` on closed ranges for backward search, `lookup` for
+    the walks), the suffix array / its inverse through the sampled containers (stride `2^6`; the
+    record boundaries) -/
 def docFull (text rb : List Nat) (pats : List (List Nat)) : String :=
-  open Blue.Csa Blue.CsaDoc in
+  open Blue.Csa Blue.CsaDoc Blue.Sampled in
   let n := text.length
   if !admissible n rb then "err" else
-  let T := Blue.CsaDoc.withMarker text
+  match Blue.Sigma.construct text with
+  | none => "sigma-panic"
+  | some sg =>
+  match Blue.Sigma.translate sg text with
+  | none => "sigma-err"
+  | some T =>
   let l := suffixArrayOrder T
   let bits := boundaryBits n rb
   let recs := records bits
-  let sa := (List.range l.length).map fun i => saOf l l.length i
-  let ps := (List.range n).map fun i => psi l (i + 1)
-  let cnts := pats.map fun p => toString (Blue.CsaDoc.count l (p.map (· + 1)))
-  let poss := pats.map fun p => showNats (search l (p.map (· + 1)))
-  let lks := (List.range (n + 2)).map fun o => match lookup bits o with
-    | none => "err" | some r => toString r
-  let offs := (List.range (recs + 1)).map fun r => match offsetOf bits r with
-    | none => "err" | some o => toString o
-  let rets := (List.range (recs + 1)).map fun r => match retrieve l bits r with
-    | none => "err" | some xs => showNats (unshift xs)
-  "len=" ++ toString (l.length - 1) ++ " recs=" ++ toString recs
-    ++ " sa=" ++ showNats sa ++ " psi=" ++ showNats ps
-    ++ " cnt=" ++ showOpts cnts ++ " pos=" ++ (if poss.isEmpty then "-" else "|".intercalate poss)
-    ++ " lk=" ++ showOpts lks ++ " off=" ++ showOpts offs ++ " ret=" ++ "|".intercalate rets
+  let syms := Blue.PsiWt.symsOf l
+  let rf := Blue.Sigma.rangeForT sg
+  match Blue.PsiWt.construct syms (Blue.PsiWt.psiOf T l), ssaConstruct (2 ^ Blue.Sampled.saSampling) (saList l), sisaConstruct l rb with
+  | some w, some ssa, some sisa =>
+    let sa := (List.range l.length).map fun i =>
+      showOptNatE (ssaWalk (Blue.PsiWt.lookup syms w) ssa (Blue.PsiWt.len w + 1) i 0)
+    let ps := (List.range n).map fun i => showOptNatE (Blue.PsiWt.lookup syms w (i + 1))
+    let cnts := pats.map fun p => showOutNat (Blue.PsiDoc.count syms w rf p)
+    let poss := pats.map fun p => match Blue.PsiDoc.search syms w rf ssa p with
+      | .ok xs => showNats xs | .err => "err" | .panic => "!"
+    let lks := (List.range (n + 2)).map fun o => match lookup bits o with
+      | none => "err" | some r => toString r
+    let offs := (List.range (recs + 1)).map fun r => match offsetOf bits r with
+      | none => "err" | some o => toString o
+    let rets := (List.range (recs + 1)).map fun r => match Blue.PsiDoc.retrieve sg syms w sisa bits r with
+      | none => "err" | some xs => showNats xs
+    "len=" ++ toString (Blue.PsiWt.len w - 1) ++ " recs=" ++ toString recs
+      ++ " sa=" ++ showOpts sa ++ " psi=" ++ showOpts ps
+      ++ " cnt=" ++ showOpts cnts ++ " pos=" ++ (if poss.isEmpty then "-" else "|".intercalate poss)
+      ++ " lk=" ++ showOpts lks ++ " off=" ++ showOpts offs ++ " ret=" ++ "|".intercalate rets
+  | _, _, _ => "construct-failed"
+
+def showOutPair : Blue.PsiWt.Outcome (Nat × Nat) → String
+  | .ok (a, b) => toString a ++ ":" ++ toString b
+  | .err => "err"
+  | .panic => "!"
+
+/-- `doc wtpsi <text>`: the wavelet-tree ψ on its own: `lookup` at every rank and two beyond, and
+    `constrain(column of σ, (a, b))` for every symbol σ ≥ 1 and every closed `(a, b)` with
+    `a ≤ b ≤ n` -/
+def docWtPsi (text : List Nat) : String :=
+  open Blue.Csa in
+  match Blue.Sigma.construct text with
+  | none => "sigma-panic"
+  | some sg =>
+  match Blue.Sigma.translate sg text with
+  | none => "sigma-err"
+  | some T =>
+  let l := suffixArrayOrder T
+  let syms := Blue.PsiWt.symsOf l
+  match Blue.PsiWt.construct syms (Blue.PsiWt.psiOf T l) with
+  | none => "construct-failed"
+  | some w =>
+    let n := text.length
+    let lk := (List.range (n + 3)).map fun i => showOutNat (Blue.PsiWt.lookupO syms w i)
+    let cons := (List.range (Blue.Sigma.K sg - 1)).map fun j =>
+      match Blue.Sigma.saRangeForSigma sg (j + 1) with
+      | none => "err"
+      | some r =>
+        ",".intercalate ((List.range (n + 1)).flatMap fun a => (List.range (n + 1 - a)).map fun d =>
+          showOutPair (Blue.PsiWt.constrain syms w r (a, a + d)))
+    "len=" ++ toString (Blue.PsiWt.len w) ++ " lk=" ++ showOpts lk ++ " con=" ++ (if cons.isEmpty then "-" else "|".intercalate cons)
+
+def showOptPair : Option (Nat × Nat) → String
+  | none => "err"
+  | some (a, b) => toString a ++ ":" ++ toString b
+
+/-- `doc sigma <text> <probes>`: the alphabet on its own -/
+def docSigma (text probes : List Nat) : String :=
+  open Blue.Sigma in
+  match construct text with
+  | none => "panic"
+  | some sg =>
+    let n := text.length
+    "K=" ++ toString (K sg)
+      ++ " s2c=" ++ showOpts ((List.range (K sg + 1)).map fun i => showOptNat (sigmaToChar sg (i + 1)))
+      ++ " c2s=" ++ showOpts (probes.map fun t => showOptNat (charToSigma sg t))
+      ++ " rng=" ++ showOpts (probes.map fun t => showOptPair (saRangeFor sg t))
+      ++ " i2s=" ++ showOpts ((List.range (n + 3)).map fun i => showOptNat (saIndexToSigma sg i))
+      ++ " i2t=" ++ showOpts ((List.range (n + 3)).map fun i => showOptNat (saIndexToT sg i))
+      ++ " bs=" ++ (match allSome (bucketStarts sg) with | none => "err" | some xs => showNats xs)
+      ++ " bl=" ++ (match allSome (bucketLimits sg) with | none => "err" | some xs => showNats xs)
+      ++ " tr=" ++ (match translate sg text with | none => "err" | some T => showNats T)
+
+/-! ### the sampled containers on their own -/
+
+/-- `doc ssa <sampling> <text>`: a sampled suffix array of stride `2^sampling` over the exact suffix
+    array of the text, asked at every rank and two beyond -/
+def docSsa (sampling : Nat) (text : List Nat) : String :=
+  open Blue.Csa Blue.Sampled in
+  let l := suffixArrayOrder (Blue.CsaDoc.withMarker text)
+  match ssaConstruct (2 ^ sampling) (saList l) with
+  | none => "construct-failed"
+  | some ssa =>
+    let tab := psiTable l
+    "sa=" ++ showOpts ((List.range (l.length + 2)).map fun i => showOptNatE (ssaLookupT tab ssa i))
+
+/-- `doc sisa <text> <positions>`: a sampled inverse suffix array over the given positions, asked at
+    every text position and two beyond -/
+def docSisa (text toSample : List Nat) : String :=
+  open Blue.Csa Blue.Sampled in
+  let l := suffixArrayOrder (Blue.CsaDoc.withMarker text)
+  match sisaConstruct l toSample with
+  | none => "err"
+  | some si => "isa=" ++ showOpts ((List.range (l.length + 2)).map fun x => showOptNatE (sisaLookup si x))
+
+/-- `doc sarr <off:val,…> all|<x,…>`: a `SampledArray`, asked at every offset up to two past the
+    last, or at the listed ones -/
+def docSarr (vals : List (Nat × Nat)) (probes : Option (List Nat)) : String :=
+  open Blue.Sampled in
+  match construct vals, vals.getLast? with
+  | some s, some last =>
+    let xs := probes.getD (List.range (last.1 + 3))
+    "lk=" ++ showOpts (xs.map fun x => showOptNat (lookup s x))
+  | _, _ => "panic"
 
 /-- is `sa` the sorted permutation of the suffixes of `T` — the hypothesis of the theorems, checked
     on the concrete array with the model's order (adjacent pairs; `lexLt` is transitive) -/
@@ -122,6 +298,29 @@ def docSa (text sa : List Nat) : String :=
   else if !adjSorted T sa then "unsorted"
   else "sorted-permutation n=" ++ toString text.length
 
+def parseTriples (s : String) : Option (List (Nat × Nat × Nat)) :=
+  if s = "-" then some [] else
+  allSome ((s.splitOn ",").map fun p => match p.splitOn ":" with
+    | [a, b, c] => match optNat a, optNat b, optNat c with
+      | some x, some y, some z => some (x, y, z)
+      | _, _, _ => none
+    | _ => none)
+
+/-- `doc wt <sym:code:len,…> <text> <q,…>`: the prefix-code wavelet tree over the code book the real
+    Huffman encoder produced (its prefix-freeness — the hypothesis of the theorems — is decided
+    here), asked `access` everywhere and `rank_q` / `select_q` for the listed symbols everywhere -/
+def docWt (cb : List (Nat × Nat × Nat)) (text qs : List Nat) : String :=
+  open Blue.Wavelet in
+  let pf := if prefixFreeB cb && inBookB cb text then "1" else "0"
+  match construct cb text with
+  | none => "pf=" ++ pf ++ " err"
+  | some w =>
+    let xs := List.range (text.length + 2)
+    "pf=" ++ pf ++ " len=" ++ toString (len w)
+      ++ " a=" ++ showOpts (xs.map fun x => showOptNat (access w x))
+      ++ " r=" ++ (if qs.isEmpty then "-" else "|".intercalate (qs.map fun q => showOpts (xs.map fun x => showOptNat (rankQ w q x))))
+      ++ " s=" ++ (if qs.isEmpty then "-" else "|".intercalate (qs.map fun q => showOpts (xs.map fun x => showOptNat (selectQ w q x))))
+
 def handleDoc : List String → String
   | ["full", text, rb, pats] =>
     match natList text, natList rb, parsePats pats with
@@ -130,6 +329,34 @@ def handleDoc : List String → String
   | ["sa", text, sa] =>
     match natList text, natList sa with
     | some t, some s => docSa t s
+    | _, _ => "bad-op"
+  | ["wtpsi", text] =>
+    match natList text with
+    | some t => docWtPsi t
+    | none => "bad-op"
+  | ["sigma", text, probes] =>
+    match natList text, natList probes with
+    | some t, some p => docSigma t p
+    | _, _ => "bad-op"
+  | ["wt", cb, text, qs] =>
+    match parseTriples cb, natList text, natList qs with
+    | some c, some t, some q => docWt c t q
+    | _, _, _ => "bad-op"
+  | ["ssa", sampling, text] =>
+    match optNat sampling, natList text with
+    | some k, some t => docSsa k t
+    | _, _ => "bad-op"
+  | ["sisa", text, ps] =>
+    match natList text, natList ps with
+    | some t, some p => docSisa t p
+    | _, _ => "bad-op"
+  | ["sarr", vals, "all"] =>
+    match parsePairs vals with
+    | some v => docSarr v none
+    | none => "bad-op"
+  | ["sarr", vals, probes] =>
+    match parsePairs vals, natList probes with
+    | some v, some q => docSarr v (some q)
     | _, _ => "bad-op"
   | ["reject", text, rb] =>
     match natList text, natList rb with
